@@ -34,7 +34,7 @@ PROPS = {
     "C09": ["C09_reads.v", "C09_stores.v", "C09_creates.v", "C09_incdec.v"],
     "C10": ["C10_determinism.v", "C10_objects_sorted.v"],
     "C11": ["C11_faults.v"],
-    "C12": ["C12_positions.v"],
+    "C12": ["C12_positions.v", "C12_token_in_node.v"],
     "C13": ["C13_lexer.v", "C13_statements.v", "C06_evaluates_identically.v"],
     "C14": ["C14_cli.v"],
     "C15": ["C15_arrays.v"],
